@@ -353,6 +353,13 @@ func ruleC16(r *Report) {
 				r.Bad("C16.expiry", cons, p.Pos(fn.Pos()), fmt.Sprintf("%d stores to the claim", len(sts)))
 				return
 			}
+			// the claim is set for every token minted (a token without exp never expires: the decoder treats it as optional)
+			for _, ret := range fc.Returns() {
+				if len(ret.Results) == 2 && isNilConst(Resolve(ret.Results[1])) && !fc.Implied(ret.Block(), fc.Cond(sts[0].Block())) {
+					r.Bad("C16.expiry", cons, p.InstrPos(sts[0]), "the claim is set on some paths only (e.g. not under "+firstCube(a.B, a.B.And(fc.Cond(ret.Block()), a.B.Not(fc.Cond(sts[0].Block()))))+"): a token minted without it is not bounded by the session lifetime")
+					return
+				}
+			}
 			// (the instant may be computed by a local helper literal: stamp := func() int64 { return now.Unix() })
 			vfc, vv := fc.valueOfPureCall(sts[0].Val)
 			c, ok := vv.(*ssa.Call)
